@@ -239,6 +239,13 @@ func (r *Runner) step(op Op) (res Result) {
 		// the zero TrustedFS (what a failed TrustedFS.Sub returns) must give an error
 		_, err := h.ParseFS(template.TrustedFS{}, "*")
 		setErr(err)
+	case "parsefszerosub":
+		// Sub of the zero TrustedFS must give an error (or a TrustedFS on which ParseFS gives one)
+		sub, err := template.TrustedFS{}.Sub(template.TrustedSourceFromConstant("d"))
+		if err == nil {
+			_, err = h.ParseFS(sub, "*")
+		}
+		setErr(err)
 	case "new":
 		h.New(op.Target)
 	case "exec":
@@ -308,7 +315,7 @@ func Run(h *History, watchdog time.Duration) ([]Result, *Runner) {
 // IsDef reports whether an op kind (re)defines templates.
 func IsDef(kind string) bool {
 	switch kind {
-	case "parse", "parsett", "parsefiles", "parsefilests", "parseglob", "parsefs", "parsefszero", "new":
+	case "parse", "parsett", "parsefiles", "parsefilests", "parseglob", "parsefs", "parsefszero", "parsefszerosub", "new":
 		return true
 	}
 	return false
@@ -485,13 +492,16 @@ var fixedHelpers = map[string]string{
 	"qn":   `{{if .C}}x" title="{{else}}y" alt="{{end}}{{with .Next}}{{template "qn" .}}{{end}}`,
 	"item": `{{if .V}}<li>{{.V}}</li>{{end}}{{with .Next}}{{template "item" .}}{{end}}`,
 	// pieces for the sibling pairs below
-	"hu":  `/{{.V}}`,
-	"hcs": `script:{{.V}}`,
-	"up":  `../`,
-	"cl":  `>`,
-	"rl":  `icon" href="{{.U}}"`,
-	"hi":  `<li>{{.V}}</li>`,
-	"hj":  `if (a < b) f()`,
+	"hu":   `/{{.V}}`,
+	"hcs":  `script:{{.V}}`,
+	"up":   `../`,
+	"cl":   `>`,
+	"rl":   `icon" href="{{.U}}"`,
+	"hi":   `<li>{{.V}}</li>`,
+	"hj":   `if (a < b) f()`,
+	"h58":  `58;{{.V}}`,
+	"hqv":  `="/x/{{.V}}"`,
+	"halt": `{{if .C}} href{{end}}`,
 }
 
 // siblingPairs: two members that need the same helper in situations the engine has to tell apart although they are
@@ -505,6 +515,10 @@ var siblingPairs = [][3]string{
 	{`<a href="/s/{{template "hv" .}}">x</a>`, `<a href="/s/.%2{{template "hv" .}}">x</a>`, "open-prefix-call"},
 	{`<a href="/s/{{template "hv" .}}">x</a>`, `<a href="/s/&#x2{{template "hv" .}}">x</a>`, "open-prefix-call"},
 	{`<p style="color:{{template "hss" .}}">x</p>`, `<p style="color:&#x{{template "hss" .}}">x</p>`, "open-prefix-call"},
+	{`<a href="/search?q=&#{{template "h58" .}}">x</a>`, `<a href="javascript&#{{template "h58" .}}">x</a>`, "open-prefix-call"},
+	{`<p style="color: red; {{template "hss" .}}">x</p>`, `<p style="color: red; &#x{{template "hss" .}}">x</p>`, "open-prefix-call"},
+	{`<p style="{{if .C}}width:9em;{{else}}width:5em;{{end}}{{template "hss" .}}">x</p>`, `<p style="{{if .C}}width:9em;{{else}}width:5em;{{end}}&#x{{template "hss" .}}">x</p>`, "open-prefix-call"},
+	{`<iframe {{if .C}}href{{else}}src{{end}}{{template "hqv" .}}></iframe>`, `<iframe src{{template "halt" .}}{{template "hqv" .}}></iframe>`, "open-prefix-call"},
 	{`<link rel="{{template "rl" .}}>`, `<link rel="stylesheet {{template "rl" .}}>`, "runtime"},
 	{`<a href="/base/{{template "up"}}">y</a>`, `<a href="{{range .L}}{{template "up"}}{{template "up"}}{{end}}index.html">x</a>`, ""},
 	{`<my-list>{{range .L}}{{template "hi" $}}{{end}}</my-list>`, `<my-list class="wide">{{range .L}}{{template "hi" $}}{{end}}</my-list>`, ""},
@@ -577,6 +591,11 @@ var badBodies = map[string][]string{
 		`{{define "pv"}}{{.V}}{{end}}{{define "pok"}}<a href="/s/{{template "pv" .}}">x</a>{{end}}|||<a href="/s/&am{{template "pv" .}}">x</a>`,
 		`{{define "pv"}}{{.V}}{{end}}{{define "pok"}}<a href="/s/{{template "pv" .}}">x</a>{{end}}|||<a href="/s /{{template "pv" .}}">x</a>`,
 		`{{define "pss"}}{{.SS}}{{end}}{{define "pok"}}<p style="color:{{template "pss" .}}">x</p>{{end}}|||<p style="color:&#x{{template "pss" .}}">x</p>`,
+		`{{define "p58"}}58;{{.V}}{{end}}{{define "pok"}}<a href="/search?q=&#{{template "p58" .}}">x</a>{{end}}|||<a href="javascript&#{{template "p58" .}}">x</a>`,
+		`{{define "p0"}}0;{{.V}}{{end}}{{define "pok"}}<script src="/s&#47{{template "p0" .}}"></script>{{end}}|||<script src="https://e.com&#47{{template "p0" .}}"></script>`,
+		`{{define "pss"}}{{.SS}}{{end}}{{define "pok"}}<p style="color: red; {{template "pss" .}}">x</p>{{end}}|||<p style="color: red; &#x{{template "pss" .}}">x</p>`,
+		`{{define "pss"}}{{.SS}}{{end}}{{define "pok"}}<p style="{{if .C}}width:9em;{{else}}width:5em;{{end}}{{template "pss" .}}">x</p>{{end}}|||<p style="{{if .C}}width:9em;{{else}}width:5em;{{end}}&#x{{template "pss" .}}">x</p>`,
+		`{{define "palt"}}{{if .C}} href{{end}}{{end}}{{define "pval"}}="/x/{{.V}}"{{end}}{{define "pok"}}<iframe {{if .C}}href{{else}}src{{end}}{{template "pval" .}}></iframe>{{end}}|||<iframe src{{template "palt" .}}{{template "pval" .}}></iframe>`,
 	},
 }
 
@@ -874,7 +893,7 @@ func Gen(t *rapid.T, o Options) *History {
 			}
 			kinds := []string{"parse", "parse", "parsett", "new"}
 			if o.FileOps {
-				kinds = append(kinds, "parsefiles", "parsefilests", "parseglob", "parsefs", "parsefszero")
+				kinds = append(kinds, "parsefiles", "parsefilests", "parseglob", "parsefs", "parsefszero", "parsefszerosub")
 			}
 			op := Op{Kind: g.pick("defkind", kinds), Set: set, Via: via, Target: name, Text: `{{define "` + name + `"}}` + body + `{{end}}`}
 			if op.Kind != "parse" && op.Kind != "parsett" && (name == g.h.RootName || name == handleName[set]) {
